@@ -38,6 +38,17 @@ ASSUMPTIONS = ["<= 3 sub-spaces; identity-mapped sub-elements (scalar and vector
 EXPLANATION = "Blocks are the restrictions of the form to one test and one trial sub-function and sum to the form, for all terminal values."
 
 
+def _spec_form(F):
+    """The form the specification is read from: F itself (its integrals one by one, repeated ones included); only forms that still contain
+    unapplied derivatives are expanded first (the expansion goes through the library's integral mapper)."""
+    from ufl.algorithms import expand_derivatives
+    from ufl.corealg.traversal import unique_pre_traversal
+    if any(isinstance(nd, C.Derivative) and not isinstance(nd, (C.Grad, C.ReferenceGrad, C.Div, C.Curl, C.NablaGrad, C.NablaDiv, C.ReferenceDiv, C.ReferenceCurl))
+           for it in F.integrals() for nd in unique_pre_traversal(it.integrand())):
+        return expand_derivatives(F)
+    return F
+
+
 def build(run):
     tmo = 20000
     for nm in ("argument", "indexed", "restricted", "multi_index", "split"):
@@ -113,7 +124,7 @@ def build(run):
                     def thunk(mkF=mkF, bi=bi, bj=bj, repl=repl, tag=tag, arity=arity):
                         F = mkF()
                         from ufl.algorithms import expand_derivatives
-                        Fe = expand_derivatives(F)
+                        Fe = _spec_form(F)
                         try:
                             blk = extract_blocks(F, bi, bj, replace_argument=repl) if arity == 2 else extract_blocks(F, bi, replace_argument=repl)
                         except (ValueError, RuntimeError) as ex:
@@ -131,7 +142,7 @@ def build(run):
                 F = mkF()
                 from ufl.algorithms import expand_derivatives
                 from ufv.smt import prove_equal
-                Fe = expand_derivatives(F)
+                Fe = _spec_form(F)
                 allb = extract_blocks(F)
                 keys = set(form_parts(Fe))
                 flat = []
@@ -190,6 +201,9 @@ def build(run):
         yield "rhs", lambda: dot(ufl.as_vector([f, f * f]), vu) * dx + f * vp * ds
         yield "indexed mixed arguments directly", lambda: (u[0] * v[2] + u[2] * v[1] + u[1] * v[1]) * dx
         yield "interior facet", lambda: jump(up) * avg(vu[0]) * dS
+        # a form that contains the SAME integral more than once (m + k + m: forms are sums, contributions add up) and equal integrands on different measures
+        yield "repeated integral m + k + m", lambda: (lambda m_, k_: m_ + k_ + m_)(dot(uu, vu) * dx + up * vp * dx, (div(uu) * vp - div(vu) * up) * dx + dot(uu, vu) * ds(1))
+        yield "repeated linear integral", lambda: (lambda m_: m_ + f * vp * ds + m_ + m_)(dot(ufl.as_vector([f, 1]), vu) * dx)
         # list tensors written by the user, with literal zero entries and with entries taken from different sub-functions
         yield "buoyancy: p e_y . v (list tensor with a zero entry)", lambda: (inner(uu, vu) + 3 * up * inner(ufl.as_vector([0, 1]), vu) + 5 * up * vp) * dx
         yield "list tensor mixing sub-functions [u_0, p]", lambda: (dot(ufl.as_vector([uu[0], up]), vu) + dot(ufl.as_vector([0, uu[1]]), ufl.as_vector([vp, vu[0]]))) * dx
@@ -273,6 +287,8 @@ def build(run):
             ("stokes", lambda: (inner(grad(u0), grad(v0)) - div(v0) * u1 - div(u0) * v1) * dx, 2),
             ("with mass", lambda: (inner(u0, v0) + u1 * v1 + f * u1 * div(v0)) * dx + u1 * v1 * ds(3), 2),
             ("rhs", lambda: (f * v1 + dot(ufl.as_vector([f, 1]), v0)) * dx, 1),
+            ("repeated integral m + k + m", lambda: (lambda m_, k_: m_ + k_ + m_)(inner(u0, v0) * dx + u1 * v1 * dx, (div(u0) * v1 - div(v0) * u1) * dx + u1 * v1 * ds(3)), 2),
+            ("repeated linear integral", lambda: (lambda m_: m_ + f * v1 * ds + m_)(dot(ufl.as_vector([f, 1]), v0) * dx), 1),
             ("buoyancy (list tensor with a zero entry)", lambda: (inner(u0, v0) + 3 * u1 * inner(ufl.as_vector([0, 1]), v0) + 5 * u1 * v1) * dx, 2),
             ("rhs with a unit vector", lambda: (f * dot(ufl.as_vector([0, 1]), v0) + v1) * dx, 1),
             # interior facets: restrictions, jumps and averages wrapping SUMS over several parts (the splitter zeroes the other parts inside the restriction)
@@ -293,7 +309,7 @@ def build(run):
                 def thunk(mkF=mkF, bi=bi, bj=bj, tag=tag, arity=arity):
                     F = mkF()
                     from ufl.algorithms import expand_derivatives
-                    Fe = expand_derivatives(F)
+                    Fe = _spec_form(F)
                     try:
                         blk = extract_blocks(F, bi, bj) if arity == 2 else extract_blocks(F, bi)
                     except RuntimeError as ex:
@@ -312,7 +328,7 @@ def build(run):
             def all_thunk(mkF=mkF, arity=arity, tag_all=tag_all):
                 F = mkF()
                 from ufl.algorithms import expand_derivatives
-                Fe = expand_derivatives(F)
+                Fe = _spec_form(F)
                 allb = extract_blocks(F)
                 rows = len(allb)
                 if arity == 2 and len({len(r) for r in allb}) > 1:
